@@ -56,7 +56,7 @@ def two_filesystems(ctx, binary):
 def run(ctx):
     binary = build.xcp()
     quick = ctx.tier == "quick"
-    maxl = 4 if quick else 6
+    maxl = 5 if quick else 6
     r = dataplane.model_check(maxl)
     ctx.tlc("XcpData MaxL=%d: HolesStayHoles (destination allocation within the source's data cells + merge gap) in every state" % maxl, r)
     if r.violated:
